@@ -1,3 +1,4 @@
+import sock_common
 from sock_common import sq, SOCK_ASSUMPTIONS
 
 FUNCS = ["p_socket_new", "p_socket_new_from_fd", "p_socket_accept", "p_socket_get_local_address", "p_socket_get_remote_address",
@@ -38,4 +39,5 @@ def scripts(prefix, harness, sysfail):
 
 
 def queries(tier):
+    sock_common.TIER = tier
     return scripts("sock_allocfail", "harness/C18_sock.c", 0)
